@@ -50,15 +50,15 @@ CLAIMS = {
  'C12': dict(
   text="Deductive proof, on closed-state contract variants of the real function bodies, that every Reader call on a locally closed quiescent connection returns ErrConnClosed (or nil for n <= 0), never blocks and never panics; Writer calls are guarded by IsActive; exception.Is matches ErrEOF with ErrConnClosed; Close is idempotent (token).",
   note="Proved: LinkBuffer methods on a closed buffer (no panic, error iff n > 0), connection Next/Peek/Skip/ReadString/ReadBinary/ReadByte/Slice/Until/Release closed variants, waitRead closed variant incl. expired deadline, writer API guards. Assumed: quiescence (no concurrent close while the call runs).",
-  nd=["peer-closed-with-buffered-data variants beyond waitRead's error kinds", "a close racing with an in-flight Reader call (C19)"]),
+  nd=["the Reader methods on the still-open buffer after a peer close (waitRead's peer-closed variant is proved: buffered bytes are granted, then ErrEOF)", "a close racing with an in-flight Reader call (C19)"]),
  'C13': dict(
   text="Deductive proof of ordering/pattern obligations of the server: onAccept registers the untrack callback before storing and stores before starting callbacks, and does neither for a connection that died in init; Shutdown detaches and closes the listener before sweeping, closes idle and counts busy connections, returns nil only right after a sweep; the EMFILE retry goroutine exits only through re-registering.",
   note="Proved: ghost-flag ordering in onAccept/Close/Close$1/OnRead/OnRead$1. Assumed: sync.Map contract, Listener.Accept returns netpoll Conns, global invariants of the callback list and poller pool at entry of onAccept.",
   nd=["that the tracked set equals the set of open accepted connections (needs a model of sync.Map contents)", "Serve has returned / descriptors closed at Shutdown's nil", "deadline behaviour in wall-clock terms"]),
  'C14': dict(
   text="Deductive proof for the dial path: exactly one of connection/error (DialConnection: known finding), the deadline error reports Timeout(), WaitWrite deregisters before returning a context error, connect gives the wait slot back on every path, socket closes the descriptor on every dial error.",
-  note="Proved: mapErr, WaitWrite, connect (slot ownership frame), dial, socket (descriptor closed exactly once on error), newPollDesc. Assumed: context package contract, resolver and address conversions (trusted), Pick does not fail (C18 finding).",
-  nd=["'within its timeout plus slack' (time)", "usable in both directions after success", "dialTCP/DialUnix bodies (trusted thin contracts)"]),
+  note="Proved: mapErr, WaitWrite, connect (slot ownership frame), dial, socket (descriptor closed exactly once on error, non-blocking mode reaches connect), newPollDesc, the retry loop of sysDialer.dialTCP closes every abandoned socket, DialTCP/DialUnix/dialer.dialTCP/NewFDConnection return exactly one of connection/error. Assumed: context package contract, resolver results, Pick does not fail (C18 finding).",
+  nd=["'within its timeout plus slack' (time)", "usable in both directions after success", "address conversion, address-family choice and self-connect detection helpers (trusted thin contracts)"]),
  'C15': dict(
   text="Deductive proof with a ghost descriptor table (fdopen/closecnt) that each function under contract closes only descriptors it owns, exactly once, on success and error paths: netFD.Close, listener.Close, parseFD/ConvertListener, sysSocket, socket, openDefaultPoll, handler's poller exit, the connection finalizer.",
   note="Proved: close preconditions (owned and open) at every syscall.Close/File.Close site under contract, all-or-nothing descriptor creation, manager.Run stops every poller it started when a later open fails, connection.init never closes the caller's Conn. Assumed: kernel/stdlib contracts (Socket, Accept, dup via File(), eventfd, epoll_create).",
